@@ -34,7 +34,8 @@ fn op(u: &mut Unstructured<'_>, consume: bool, depth: u32) -> arbitrary::Result<
             Op::New(d)
         }
         1 => Op::CloneH(u.arbitrary()?),
-        2 | 3 => Op::DropRoot(u.arbitrary()?),
+        2 => Op::DropRoot(u.arbitrary()?),
+        3 => if u.ratio(1u8, 3u8)? { Op::DropClosureRoots(u.arbitrary()?) } else { Op::DropRoot(u.arbitrary()?) },
         4 | 5 => Op::Store { owner: u.arbitrary()?, target: u.arbitrary()?, adopt: u.int_in_range(0u8..=2)? },
         6 => Op::AdoptSlot { pick: u.arbitrary()?, same_instance: u.arbitrary()? },
         7 => Op::Unadopt { a: u.arbitrary()?, b: u.arbitrary()? },
